@@ -441,8 +441,10 @@ func perturbLines(r R, l []string) []string {
 		return []string{strings.Join(l[:k], ","), strings.Join(l[k:], ",")}
 	default: // OWS and empties
 		var parts []string
+		empties := 0 // the library tolerates at most 16 empty elements in all; a permitted intent stays below that
 		for _, n := range l {
-			if r.chance(1, 4) {
+			if empties < 12 && r.chance(1, 4) {
+				empties++
 				parts = append(parts, "")
 			}
 			parts = append(parts, r.pick([]string{"", " ", "\t"})+n+r.pick([]string{"", " ", "\t"}))
